@@ -29,7 +29,7 @@ CHECKS = {
  "C01": ("model_checking",
          "explicit-state IDDFS over real handlers + balance ledger + per-bridge slices",
          "Exhaustive enumeration of every history over create/deposit/propose/delete/advance/finalize/bank-send/role-update letters on three bridge ids (one never created), two denoms and two trees that differ only in the bridge id, with and without a registration fee; after every transition the ledger model equals every account's balances (and supply = sum of known accounts), the raw records and escrow of every non-addressed bridge are byte-identical, escrow decreases only through a successful finalize of the same bridge with a leaf of that bridge's tree, a deposit is accepted only into an existing bridge (also after a third party sent coins to the address a future bridge will have), and rejected messages (incl. an under-funded escrow) leave the digest unchanged; in every state with a final output every leaf is also claimed with amount+1, amount+2^64 and 2^64 against an escrow topped up to cover it, and must be refused. A RestartViaGenesis letter (module genesis exported, JSON round trip, ValidateGenesis, import into the emptied module store) is part of the alphabet, so every clause is also decided across chain restarts.",
-         "Trusted: as C11 plus the independent leaf/tree code. Bounded: depth 5 (quick) / 7 (thorough), amounts 0-2.",
+         "Trusted: as C11 plus the independent leaf/tree code. Bounded: depth 5 (quick) / 7 (thorough) without a registration fee, 4 / 6 with one; amounts 0-2.",
          "DESIGN.md §6 C01"),
  "C03": ("model_checking",
          "explicit-state search for oracle states + exhaustive perturbation matrix per state",
